@@ -74,6 +74,39 @@ def judge_local_vec(ctx, j, rs, prefix):
     return ok
 
 
+def long_batch_jobs(n):
+    """C12 at scale in the other direction: ONE local handle accumulating n updates without a flush — the shared metric does not move
+    until the flush, a clear discards all of it, the flush hands over exactly n"""
+    jobs = []
+    for fl, upd, rd in (("counter", "linc_by", "get"), ("int_counter", "linc_by", "get"), ("histogram", "lobserve", "metric")):
+        o = {"name": "m", "help": "h"}
+        if fl == "histogram":
+            o["buckets"] = [0.5, 1e12]
+        calls = [{"op": fl, "as": "m", "opts": o}, {"op": "local", "of": "m", "as": "L"},
+                 {"op": "repeat", "n": n, "calls": [{"op": upd, "obj": "L", "v": 1}]}, {"op": rd, "obj": "m"},
+                 {"op": "lclear" if fl == "histogram" else "lreset", "obj": "L"}, {"op": "lflush", "obj": "L"}, {"op": rd, "obj": "m"},
+                 {"op": "repeat", "n": n, "calls": [{"op": upd, "obj": "L", "v": 1}]}, {"op": "lflush", "obj": "L"}, {"op": "lflush", "obj": "L"}, {"op": rd, "obj": "m"}]
+        jobs.append({"id": "long-batch-%s-%d" % (fl, n), "calls": calls, "flavour": fl, "n": n})
+    return jobs
+
+
+def judge_long_batch(ctx, j, rs, prefix):
+    n, fl = j["n"], j["flavour"]
+    rp = {"bulk": True, "calls": j["calls"]}
+    if any("ok" not in x for x in rs):
+        ctx.violation(prefix + ":call-failed", "one local %s with %d updates: %s" % (fl, n, [x for x in rs if "ok" not in x][0]), rp)
+        return False
+
+    def val(r):
+        return r["ok"]["hist"]["count"] if fl == "histogram" else r["ok"].get("i")
+    got = [val(rs[3]), val(rs[6]), val(rs[10])]
+    if got != [0, 0, n]:
+        ctx.violation(prefix + ":long-batch", "one local %s handle: after %d updates without a flush the shared metric shows %s (expected 0), after clear + flush %s (expected 0), after %d more updates and a flush %s (expected %d)" % (
+            fl, n, got[0], got[1], n, got[2], n), rp)
+        return False
+    return True
+
+
 def vec_jobs(n):
     """C05 at scale: n distinct label tuples (two labels; the second label's values repeat) through the positional and the map form"""
     jobs = []
